@@ -1,9 +1,10 @@
 (* C36 proofs, part 8: the comparer's own predicates (Corr/C36.v).  Where the implementation did
-   what the model predicts and the model's run of that schedule is outside finding class 1, the
-   occupancy counters observed at every step satisfy the exclusion clause of the oracle. *)
+   what the model (repaired cleanup, fx = true) predicts, the occupancy counters observed at every
+   step satisfy the exclusion clause of the oracle, and if nobody is left blocked both lock tables
+   were reported empty. *)
 From Coq Require Import ZArith List Bool Arith Lia.
 From TV Require Import Lib.Interleave Model.PageLocks Proof.PageLocksBase Proof.PageLocksStep
-  Proof.PageLocksShape Proof.PageLocksInv Proof.PageLocks Corr.C36.
+  Proof.PageLocksShape Proof.PageLocksInv Proof.PageLocks Proof.PageLocksTable Corr.C36.
 Import ListNotations.
 Open Scope Z_scope.
 
@@ -81,19 +82,19 @@ Proof.
 Qed.
 
 Lemma simulate_occ_ok steps : forall s sf,
-  Inv s -> simulate false steps s = (sf, true) -> s_bad (sh sf) = false ->
+  Inv s -> simulate true steps s = (sf, true) -> s_bad (sh sf) = false ->
   forallb (fun st => occ_ok (so_occ st)) steps = true.
 Proof.
   induction steps as [|[t out woke occ] r IH]; intros s sf I Hsim Hb; cbn [forallb so_occ]; auto.
   cbn [simulate] in Hsim.
-  set (a := run_until (step false) at_site fuel (Z.to_nat t) s) in *.
+  set (a := run_until (step true) at_site fuel (Z.to_nat t) s) in *.
   assert (Ia : Inv a).
-  { destruct (run_until_is_run St (step false) at_site fuel (Z.to_nat t) s) as [s1 H1]. unfold a. rewrite H1. apply inv_run; auto. }
-  destruct (settle_is_run false (ids_of a) a) as [s2 H2].
-  destruct (settle false (ids_of a) a) as [b wk] eqn:E. cbn [fst] in H2.
+  { destruct (run_until_is_run St (step true) at_site fuel (Z.to_nat t) s) as [s1 H1]. unfold a. rewrite H1. apply inv_run; auto. }
+  destruct (settle_is_run true (ids_of a) a) as [s2 H2].
+  destruct (settle true (ids_of a) a) as [b wk] eqn:E. cbn [fst] in H2.
   assert (Ib : Inv b) by (rewrite H2; apply inv_run; auto).
-  destruct (simulate_is_run false r b) as [s3 H3].
-  destruct (simulate false r b) as [c ok3] eqn:E3. cbn [fst] in H3.
+  destruct (simulate_is_run true r b) as [s3 H3].
+  destruct (simulate true r b) as [c ok3] eqn:E3. cbn [fst] in H3.
   injection Hsim as Hc Hall. rewrite <- Hc in Hb. clear Hc.
   apply andb_prop in Hall. destruct Hall as [Hok Hok3].
   subst ok3. apply andb_prop in Hok. destruct Hok as [_ Hocc].
@@ -102,13 +103,39 @@ Proof.
   rewrite <- (list_eqb_trip _ _ Hocc). apply occupancy_ok. apply inv_mutual_exclusion; auto.
 Qed.
 
-Lemma agreeing_unflagged_case_exclusive_l : forall progs steps f,
-  model_agrees (Case progs steps f) = true -> known_class (Case progs steps f) = 0 ->
-  forallb (fun st => occ_ok (so_occ st)) steps = true.
+Lemma quiescent_unblocked_done s : quiescent s = true -> blocked_of s = [] -> all_done s.
 Proof.
-  intros progs steps f Ha Hk. unfold model_agrees, known_class in *.
-  destruct (simulate false steps (start progs)) as [sf ok] eqn:E.
-  apply andb_prop in Ha. destruct Ha as [Hok _]. subst ok.
-  eapply simulate_occ_ok; eauto; [apply inv_init|].
-  destruct (s_bad (sh sf)); [discriminate | reflexivity].
+  unfold quiescent, blocked_of, all_done. intros Hq Hb t th Hin.
+  rewrite forallb_forall in Hq. specialize (Hq _ Hin). cbn [snd] in Hq.
+  apply orb_true_iff in Hq. destruct Hq as [Hq|Hq]; auto. exfalso.
+  assert (Hnil : forall (l : list (nat * thread)) (f : nat * thread -> list bl), flat_map f l = [] -> forall x, In x l -> f x = [])
+    by (intros l f H x Hx; induction l as [|y l IHl]; [destruct Hx|]; cbn [flat_map] in H;
+        apply app_eq_nil in H; destruct H as [H1 H2]; destruct Hx as [->|Hx]; auto).
+  specialize (Hnil _ _ Hb _ Hin). cbn [fst snd] in Hnil.
+  destruct (th_pc th); cbn in Hq; try discriminate; discriminate Hnil.
+Qed.
+
+Lemma blk_eqb_nil a : list_eqb blk_eqb a [] = true -> a = [].
+Proof. destruct a; [reflexivity | discriminate]. Qed.
+
+Lemma agreeing_case_satisfies_property_l : forall progs steps f,
+  model_agrees (Case progs steps f) = true ->
+  forallb (fun st => occ_ok (so_occ st)) steps = true /\
+  match f with FComplete _ _ _ [] np nt => np = 0 /\ nt = 0 | _ => True end.
+Proof.
+  intros progs steps f Ha. unfold model_agrees in Ha.
+  destruct (simulate_is_run true steps (start progs)) as [sched Hrun].
+  destruct (simulate true steps (start progs)) as [sf ok] eqn:E. cbn [fst] in Hrun.
+  apply andb_prop in Ha. destruct Ha as [Hok Hfin]. subst ok.
+  assert (Hb : s_bad (sh sf) = false) by (rewrite Hrun; apply bad_never_fx).
+  split; [eapply simulate_occ_ok; eauto; apply inv_init|].
+  destruct f as [a ct ta bl np nt|]; auto. destruct bl as [|b bl]; auto.
+  repeat (apply andb_prop in Hfin; destruct Hfin as [Hfin ?]).
+  match goal with H : list_eqb blk_eqb _ [] = true |- _ => apply blk_eqb_nil in H; rename H into Hbl end.
+  match goal with H : quiescent _ = true |- _ => rename H into Hq end.
+  unfold start in Hrun. assert (Hd := quiescent_unblocked_done _ Hq Hbl). rewrite Hrun in Hd.
+  assert (M1 := map_empty_when_done_l true _ _ Hd). assert (M2 := table_map_empty_when_done_l true _ _ Hd).
+  rewrite <- Hrun in M1, M2.
+  repeat match goal with H : (_ =? _) = true |- _ => apply Z.eqb_eq in H end.
+  rewrite M1 in *. rewrite M2 in *. cbn [length] in *. split; lia.
 Qed.
